@@ -375,6 +375,11 @@ def run_case(c):
         pro, epi, adj = abi._create_prologue_and_epilogue(
             cons, regs, c["leaf"])
         pro, epi = list(pro), list(epi)
+        # what the patch is handed afterwards is still what was allocated
+        after = [r.name for r in regs.scratch_registers]
+        if after != scratch:
+            viol.append({"key": "alloc:scratch-list-changed-by-prologue",
+                         "msg": f"{after} != {scratch}"})
     except NotImplementedError:
         if abi_name == "mips32-elf" and c["align"]:
             ctr["expected_refusals"] += 1
